@@ -125,10 +125,15 @@ def check(col: Collector, tier: str):
     # every character of the input is visited: a single loop over the parameter, appending for every branch
     loops = [n for n in walk_no_nested(esc.node) if isinstance(n, ast.For)]
     p0 = esc.node.args.args[0].arg
-    ok = len(loops) == 1 and src(loops[0].iter) == p0
-    if ok:
-        fake = ast.FunctionDef(name="_", args=esc.node.args, body=loops[0].body, decorator_list=[], lineno=loops[0].lineno)
-        ok = all(any(e.kind == "call" and call_name(e.node) == "append" for e in p.events) for p in enumerate_paths(fake))
+    comps = [g for n in ast.walk(esc.node) if isinstance(n, (ast.ListComp, ast.GeneratorExp)) for g in n.generators if src(g.iter) == p0]
+    if not loops and len(comps) == 1:
+        # one comprehension over the text: every character yields exactly one element unless the comprehension filters
+        ok = not comps[0].ifs
+    else:
+        ok = len(loops) == 1 and src(loops[0].iter) == p0
+        if ok:
+            fake = ast.FunctionDef(name="_", args=esc.node.args, body=loops[0].body, decorator_list=[], lineno=loops[0].lineno)
+            ok = all(any(e.kind == "call" and call_name(e.node) == "append" for e in p.events) for p in enumerate_paths(fake))
     col.add("C18.R1", esc.short, "every-character-emitted", ok, "each input character must be appended (escaped or as is) on every branch", esc.loc)
 
     # ------------------------------------------------------------ visit_Constant / visit_Str / visit_Num
